@@ -6,7 +6,8 @@ Part A: all patterns up to K body tokens (+ optional tail ~ / ..., optional (?i)
         reverse of the negated rule gives back the plain rule, ACL _make_reverse is an involution,
         ordering reverse_regexp recognises exactly the negated rows.
 Part R: patterns whose first word is, begins with or contains a vendor's negation word (no / notify / no-a / NO / xno ...)
-        for all five negation words: reverse template and reverse of the negated rule against the reference.
+        for all five negation words: reverse template and reverse of the negated rule against the reference; and the
+        reverse form the real compile_ordering_text gives such a rule (leading negation word taken off once).
 Part S: rule lines as written in files - pattern, spaces and/or tabs, %params - through _parse_raw_rule and the three
         text compilers: the row is the pattern and the params take effect; every raw shipped line likewise.
 Part B: every rule line of every shipped .rul/.order/.deploy (rendered for a set of hardware views):
@@ -102,7 +103,8 @@ def negation_edge_patterns():
     for prefix in PREFIXES:
         for first in (prefix, prefix + "x", prefix + "-a", prefix.upper(), "x" + prefix):
             out.append(first)
-            for body in (["a"], ["*"], ["a", "*"], ["*", "~"], ["a", "~"], [prefix], [prefix, "a"]):
+            for body in (["a"], ["*"], ["a", "*"], ["*", "~"], ["a", "~"], [prefix], [prefix, "a"], ["x" + prefix, "a"],
+                         ["a", prefix, "*"]):
                 out.append(" ".join([first] + body))
     return sorted(set(out))
 
@@ -121,6 +123,7 @@ def run_r(block, ctx):
         text, key = s
         rx = syntax.compile_row_regexp(p)
         check_pair(p, text, rx, ctx.violation)
+        check_ordering_compiled(p, text, ctx)
         if key is None:
             continue
         ctx.nontrivial += 1
@@ -129,6 +132,50 @@ def run_r(block, ctx):
         ctx.extra["reverse_templates_checked"] += 2 * len(PREFIXES)
         ctx.outcomes["R:reverse-checked"] += 1
     ctx.sample({"part": "R", "patterns": pats[:6]})
+
+
+ORDER_VENDOR_PREFIX = {"huawei": "undo", "cisco": "no", "juniper": "delete"}
+
+
+def check_ordering_compiled(p, text, ctx):
+    """the reverse form an ordering rule recognises, as the real compile_ordering_text builds it: for a plain rule the
+    negated rows of what it matches, for a rule written negated ('undo X') the rows of X - the leading negation word
+    is taken off once, nothing else is touched"""
+    from annet.annlib.rbparser import syntax
+    from annet.annlib.rbparser.ordering import compile_ordering_text
+    if "(?i)" in p:
+        return
+    for vendor, prefix in ORDER_VENDOR_PREFIX.items():
+        try:
+            o = compile_ordering_text(p + "\n", vendor)
+        except Exception as e:  # noqa
+            ctx.violation({"kind": "ordering-compile-raises", "exc": type(e).__name__}, {"part": "R", "pattern": p, "vendor": vendor}, repr(e)[:200])
+            continue
+        if len(o) != 1:
+            continue
+        attrs = next(iter(o.values()))["attrs"]
+        toks = p.split()
+        if len(toks) > 1 and toks[0] == prefix:
+            plain = " ".join(toks[1:])
+            want_rows = [(text[len(prefix):].lstrip(), True), (text, False)] if text.startswith(prefix + " ") else []
+        else:
+            plain = prefix + " " + p
+            want_rows = [(prefix + " " + text, True), (text, False)]
+        try:
+            want_rx = syntax.compile_row_regexp(plain)
+        except Exception:  # noqa
+            continue
+        ctx.evals += 1
+        ctx.extra["ordering_reverse_compiled"] += 1
+        if attrs["reverse_regexp"].pattern != want_rx.pattern:
+            # same language on the probe rows?
+            for r, _ in want_rows + [(text, None), (prefix + " " + text, None), (prefix + " " + prefix + " " + text, None)]:
+                if bool(attrs["reverse_regexp"].match(r)) != bool(want_rx.match(r)):
+                    ctx.violation({"kind": "ordering-reverse-form", "shape": rulelang.shape(p), "vendor": vendor},
+                                  {"part": "R", "pattern": p, "vendor": vendor, "row": r},
+                                  "rule %r: reverse_regexp %r, expected the pattern of %r (%r); row %r"
+                                  % (p, attrs["reverse_regexp"].pattern, plain, want_rx.pattern, r))
+                    break
 
 
 SEPARATORS = [" ", "  ", "\t", " \t", "\t\t", "\t "]
